@@ -12,6 +12,9 @@ JUNK = [None, True, False, 0, -1, 1.5, "", "junk", [], ["junk"], [None], {}, {"k
 JUNK_NAMES = ["null", "true", "false", "0", "-1", "1.5", "empty-string", "string", "empty-list", "list-of-string", "list-of-null",
               "empty-object", "object", "nested-junk", "huge-int", "typed-object", "mixed-list"]
 
+EDEF = "extension-definition--d83fce45-ef58-4c6c-a3f4-1fbc32e98c6e"
+EXT_JUNK = [("string", "a string"), ("number", 5), ("list", [1]), ("empty-object", {}), ("null", None), ("bool", True)]
+
 BAD_UUIDS = [
     ("urn-uuid", lambda u: "urn:uuid:" + u), ("braced", lambda u: "{" + u + "}"), ("dashless", lambda u: u.replace("-", "")),
     ("short", lambda u: u[:-1]), ("long", lambda u: u + "0"), ("trailing-newline", lambda u: u + "\n"), ("leading-space", lambda u: " " + u),
@@ -136,13 +139,17 @@ def kind_specific(version, slot, v, m):
                 out.append(("wrong-prefix", "identity-x--" + u if t != "identity-x" else "foo--" + u))
                 out.append(("other-type-prefix", ("malware" if t != "malware" else "tool") + "--" + u))
             else:
-                for tt in sorted(m.types):
-                    if m.ref_allows(slot.kind, tt) is False:
-                        out.append(("ref-to-disallowed-type:" + tt, tt + "--" + u))
-                        break
                 dis = [tt for tt in sorted(m.types) if m.ref_allows(slot.kind, tt) is False]
-                if len(dis) > 1:
-                    out.append(("ref-to-disallowed-type:" + dis[-1], dis[-1] + "--" + u))
+                picked = []
+                for tt in dis:          # one disallowed type per category, and every meta type (they sit between the categories)
+                    cat = m.types[tt].get("cat")
+                    if cat in ("meta", "marking", "bundle") or tt in ("marking-definition", "language-content", "extension-definition", "bundle") \
+                            or cat not in {m.types[x].get("cat") for x in picked}:
+                        picked.append(tt)
+                if dis and dis[-1] not in picked:
+                    picked.append(dis[-1])
+                for tt in picked:
+                    out.append(("ref-to-disallowed-type:" + tt, tt + "--" + u))
                 out.append(("ref-to-custom-type", "x-custom-thing--" + u))
                 out.append(("ref-to-unknown-type", "frobnicator--" + u))
     elif k == "ts":
@@ -163,6 +170,10 @@ def kind_specific(version, slot, v, m):
                 ("hash:value-not-string", {"MD5": 5}), ("hash:value-null", {"MD5": None}),
                 ("hash:lowercase-name", {"md5": "5a21fd2ba003eeb25d03a33499792e2e"}),
                 ("hash:key-trailing-newline", {"MD5\n": "5a21fd2ba003eeb25d03a33499792e2e"})]
+    elif k == "extensions":
+        if version == "2.1":
+            for lab, val in EXT_JUNK:
+                out.append(("extension:unregistered-definition-value-" + lab, dict(v if isinstance(v, dict) else {}, **{EDEF: val})))
     elif k == "dict":
         out += [("dict:key-bad-chars", {"bad key!": "v"}), ("dict:key-trailing-newline", {"key\n": "v"}), ("dict:key-too-long", {"k" * 300: "v"}),
                 ("dict:key-unicode", {"ключ": "v"}), ("dict:null-value", {"key": None}), ("dict:empty-key", {"": "v"})]
@@ -422,6 +433,17 @@ def corruptions(version, o, two_point_rng=None):
             oo = copy.deepcopy(o)
             setp(oo, path, {})
             yield section + "|object|empty-object", ".".join(str(p) for p in path), oo
+        if version == "2.1" and "extensions" in tbl["by_name"] and isinstance(get(o, path), dict) and "extensions" not in get(o, path):
+            for lab, val in EXT_JUNK:
+                oo = copy.deepcopy(o)
+                get(oo, path)["extensions"] = {EDEF: val}
+                yield section + "|extensions|extension:unregistered-definition-value-" + lab, ".".join(str(p) for p in path + ("extensions",)), oo
+    if o.get("type") == "bundle" and isinstance(o.get("objects"), list):
+        # a STIX 2.0 cyber observable (no id; it only exists inside observed-data) as a bundle member
+        for pos in (0, len(o["objects"])):
+            oo = copy.deepcopy(o)
+            oo["objects"].insert(pos, {"type": "file", "name": "member-without-id.txt"})
+            yield "member|object|observable-without-id-as-member", "objects.%d" % pos, oo
     for lab, oo in constraint_breaks(version, o, objects):
         yield lab.replace(":", "|", 1) + "|co-constraint", "", oo
     if two_point_rng is not None:
